@@ -734,6 +734,14 @@ impl Node {
             PortSlot::Empty => false,
         }
     }
+    /// the first slave port's filter estimates, as the daemon's run() picks them
+    pub fn current_contribution(&self) -> Option<FilterEstimate> {
+        self.ports.iter().find_map(|s| match s {
+            PortSlot::Running(r) => r.port_current_ds_contribution(),
+            PortSlot::InBmca(b) => b.port_current_ds_contribution(),
+            PortSlot::Empty => None,
+        })
+    }
     pub fn states(&self) -> Vec<PS> {
         (0..self.nports()).map(|p| self.state(p)).collect()
     }
